@@ -88,6 +88,12 @@ class _RT:
     def end_path(self):
         raise PathEnd()
 
+    def prune(self):
+        raise core.Infeasible()
+
+    def assume_inv(self, ordinal, env):
+        core.assume(self.specs[ordinal].inv(env))
+
 
 def _assigned_names(body):
     names = []
@@ -146,6 +152,38 @@ def cut_loops(fn, specs, module=None):
             it_branch += node.body
             it_branch += stmts([f'{var} = {var} + _vf_S{ordn}', f"__vf.check({ordn}, 'preserved', locals())", '__vf.end_path()'])
             ex_branch = stmts(hav + [f'__vf.havoc_state({ordn}, locals())', f'__vf.assume_exit({ordn}, locals(), {var}, _vf_B{ordn})'])
+            branch = ast.If(test=ast.parse(f'__vf.choose({ordn})', mode='eval').body, body=it_branch, orelse=ex_branch)
+            return pre + [branch]
+
+        def visit_While(self, node):
+            self.generic_visit(node)
+            ordn = None
+            for o, l in targets.items():
+                if l is node:
+                    ordn = o
+            if ordn is None:
+                return node
+            if node.orelse:
+                raise Unsupported('loop with else clause')
+            for n in ast.walk(node):
+                if isinstance(n, (ast.Break, ast.Continue)):
+                    raise Unsupported('while loop with break/continue')
+            spec = specs[ordn]
+            walrus = [n.target.id for n in ast.walk(node.test) if isinstance(n, ast.NamedExpr)]
+            assigned = [n for n in _assigned_names(node.body) + walrus if n not in spec.keep]
+            assigned = list(dict.fromkeys(assigned))
+
+            def stmts(lines):
+                return ast.parse('\n'.join(lines)).body
+            pre = stmts([f"__vf.check({ordn}, 'entry', locals())"])
+            hav = [f"{n} = __vf.fresh({ordn}, '{n}', locals().get('{n}'))" for n in assigned]
+            guard_t = ast.If(test=ast.UnaryOp(op=ast.Not(), operand=node.test), body=stmts(['__vf.prune()']), orelse=[])
+            import copy
+            guard_f = ast.If(test=copy.deepcopy(node.test), body=stmts(['__vf.prune()']), orelse=[])
+            it_branch = stmts(hav + [f'__vf.havoc_state({ordn}, locals())', f'__vf.assume_inv({ordn}, locals())']) + [guard_t]
+            it_branch += node.body
+            it_branch += stmts([f"__vf.check({ordn}, 'preserved', locals())", '__vf.end_path()'])
+            ex_branch = stmts(hav + [f'__vf.havoc_state({ordn}, locals())', f'__vf.assume_inv({ordn}, locals())']) + [guard_f]
             branch = ast.If(test=ast.parse(f'__vf.choose({ordn})', mode='eval').body, body=it_branch, orelse=ex_branch)
             return pre + [branch]
 
